@@ -495,6 +495,7 @@ pub fn step_dddmp(s: &mut Mach, ins: &Instr, model: &mut Model, ctx: &mut RunCtx
         let used = s.mref.with_manager_shared(|m| m.num_inner_nodes()) as u32;
         for cap in 0..=(2 * used + 4).min(99) {
             ctx.stats.bump("probe.dddmp_cross_kind_capacity_point");
+            let born = std::time::Instant::now();
             let other = oxidd::bdd::new_manager(cap as usize, 16, 1);
             other.with_manager_exclusive(|m| {
                 m.add_vars(n);
@@ -535,9 +536,13 @@ pub fn step_dddmp(s: &mut Mach, ins: &Instr, model: &mut Model, ctx: &mut RunCtx
                 m.gc();
                 m.num_inner_nodes()
             });
+            // a manager released before its collector thread waits for signals leaks that thread
+            // (and the store and the worker pool with it): see `Mach::drop`
+            let min = std::time::Duration::from_micros(crate::run::manager_min_lifetime_us());
+            while born.elapsed() < min {
+                std::thread::yield_now();
+            }
             drop(other);
-            // the manager's worker thread ends asynchronously: do not pile them up
-            std::thread::sleep(std::time::Duration::from_micros(400));
             if left != 0 {
                 ctx.violate(&["C14", "C05"], "cross-kind-leak", format!("{:?}: after an import into a BDD manager of capacity {} and dropping everything, gc leaves {} inner nodes", ins, cap, left));
                 break;
@@ -616,6 +621,9 @@ pub fn step_dddmp(s: &mut Mach, ins: &Instr, model: &mut Model, ctx: &mut RunCtx
             // Err, or Ok with well-formed handles (checked by the audit below); never a panic
             if let Ok((hs, _)) = import_bytes(s, &m, RPlan::Plain, &mut f4) {
                 ctx.stats.bump("probe.dddmp_mutant_accepted");
+                if std::env::var_os("VERIF_DUMP_ACCEPTED").is_some() {
+                    eprintln!("---- accepted damaged file ----\n{}\n---- original ----\n{}", String::from_utf8_lossy(&m), String::from_utf8_lossy(&file));
+                }
                 // keep them alive until the audit has seen them
                 s.scratch.extend(hs);
             }
